@@ -63,6 +63,10 @@ Effect(e, w) ==
     [] e.ev = "Load"            -> LET g == LoggedWorld(e) IN                                                         \* objects taken as they are
                                    [mols |-> g.mols, sys |-> g.sys, parts |-> g.parts, err |-> "none", obs |-> {}]
 
+\* the trace goes on from the logged world, except that a highest-key cache that is WRONG on the real object is not taken
+\* over (noted as CacheSound): what the wrong value does to a later merge is then judged against the right one
+Sane(M, c) == IF c \in BlockCells \/ ME!CacheOK(M) THEN M ELSE [M EXCEPT !.maxnode = -1]
+
 Clauses == <<"LogKept", "LogRenumbered", "LogNothingAdded", "CitKept", "MetaKept", "MergeLogTotal", "BookFrame", "LogNoDangling", "CacheSound">>
 Notes(i, o, r, g) ==      \* o: clauses, r: computed outcome, g: logged world
   LET pre == ToString(i) \o ":" IN
@@ -99,9 +103,9 @@ Consume ==
         THEN why' = "molecule list of the system differs from the model" /\ UNCHANGED <<l, W, seen>>
         ELSE IF e.ev = "Merge" /\ e.err = "none" /\ ~ ME!Conserved(W.mols[e.m], W.mols[e.n], g.mols[e.m])
         THEN why' = "the merge does not conserve (declarative form)" /\ UNCHANGED <<l, W, seen>>
-        ELSE /\ W' = g
+        ELSE /\ W' = [g EXCEPT !.mols = [c \in Cells |-> Sane(g.mols[c], c)]]
              /\ l' = l + 1
-             /\ seen' = seen \o Notes(l, r.obs, r, g)
+             /\ seen' = seen \o Notes(l, r.obs \cup {x \in {"CacheSound"} : \E c \in Cells \ BlockCells : ~ ME!CacheOK(g.mols[c])}, r, g)
              /\ UNCHANGED why
   /\ UNCHANGED tid
 
